@@ -739,3 +739,218 @@ Proof.
     apply (settle_terminates _ _ _ se2 P2). apply msr_bound. exact P2.
   - apply (handled_settle _ s0 s2 k n). exact Hd.
 Qed.
+
+(* ---- all interleavings after an activation ---- *)
+
+(* what the session still has to look at for n, regardless of n's status *)
+Definition pendingI (s : st) (k : nat) (n : node) : Prop :=
+  exists se, phase s k = Active se /\
+    (In (n, false) (se_queue se) \/ In n (se_tasks se) \/
+     (se_listed se = true /\ In n (se_init se)) \/ (se_listed se = false /\ In n (nodes s))).
+
+Lemma pendingI_other : forall s k n k' p, k' <> k -> pendingI s k n -> pendingI (set_phase s k' p) k n.
+Proof.
+  intros s k n k' p Hk [se [P H]]. exists se. split; [|exact H].
+  rewrite phase_set_other by exact Hk. exact P.
+Qed.
+Lemma pendingI_frame : forall s s' k n, phase s' k = phase s k -> nodes s' = nodes s ->
+  pendingI s k n -> pendingI s' k n.
+Proof. intros s s' k n E En [se [P H]]. exists se. split; [congruence|]. rewrite En. exact H. Qed.
+Lemma pendingI_same : forall s k n se se',
+  phase s k = Active se ->
+  (In (n, false) (se_queue se) \/ In n (se_tasks se) \/
+     (se_listed se = true /\ In n (se_init se)) \/ (se_listed se = false /\ In n (nodes s)) ->
+   In (n, false) (se_queue se') \/ In n (se_tasks se') \/
+     (se_listed se' = true /\ In n (se_init se')) \/ (se_listed se' = false /\ In n (nodes s))) ->
+  pendingI s k n -> pendingI (set_phase s k (Active se')) k n.
+Proof.
+  intros s k n se se' P Hq [se1 [P1 H]]. rewrite P in P1. inversion P1; subst se1.
+  exists se'. split; [apply phase_set_same; eapply phase_active_lt; exact P|]. simpl. auto.
+Qed.
+
+Lemma pendingI_enqueue : forall s k n m a al,
+  pendingI s k n -> pendingI (set_ws (set_alive s al) (map (enqueue m a) (ws s))) k n.
+Proof.
+  intros s k n m a al [se [P H]]. unfold pendingI. rewrite phase_enqueue_any, P. simpl.
+  destruct (se_watch se); [|exists se; auto].
+  eexists. split; [reflexivity|]. simpl.
+  destruct H as [H|[H|[H|H]]]; auto. left. apply in_or_app. left. exact H.
+Qed.
+
+(* one step: the obligation stays, or the handler runs, or the init pass finds n alive *)
+Lemma pendingI_step : forall s k n e, ~ ends k e -> pendingI s k n ->
+  pendingI (step s e) k n \/
+  trace (step s e) = THandled k n (on_node n (wls s)) :: trace s \/
+  memn n (alive s) = true.
+Proof.
+  intros s k n e NE Pd.
+  destruct e; simpl.
+  - (* EAddNode *) destruct (memn n0 (nodes s)) eqn:M; left; [exact Pd|].
+    destruct Pd as [se [P H]]. exists se. split; [exact P|]. simpl.
+    destruct H as [H|[H|[H|[H1 H2]]]]; auto. right. right. right. split; [exact H1|apply in_or_app; left; exact H2].
+  - (* EHeartbeat *) destruct (negb (memn n0 (nodes s))); [left; exact Pd|].
+    destruct (memn n0 (alive s)); [left; exact Pd|]. left. apply pendingI_enqueue. exact Pd.
+  - (* ELapse *) destruct (memn n0 (alive s)); [|left; exact Pd]. left. apply pendingI_enqueue. exact Pd.
+  - (* ECreate *) destruct (memn n0 (nodes s)); left; [eapply pendingI_frame; [| |exact Pd]; reflexivity|exact Pd].
+  - (* EReport *) left. eapply pendingI_frame; [| |exact Pd]; reflexivity.
+  - (* ESpawn *) left. destruct Pd as [se [P H]]. exists se. split; [|exact H].
+    unfold phase in *. simpl. rewrite app_nth1; [exact P|]. eapply phase_active_lt. exact P.
+  - (* EStart *) destruct (phase s k0) eqn:Pk; try (left; exact Pd).
+    destruct (Nat.eq_dec k0 k) as [E|E]; [subst; destruct Pd as [se [P _]]; congruence|].
+    left. apply pendingI_other; assumption.
+  - (* ERegister *) destruct (phase s k0) eqn:Pk; try (left; exact Pd).
+    destruct (holder s); [left; exact Pd|].
+    destruct (Nat.eq_dec k0 k) as [E|E]; [subst; destruct Pd as [se [P _]]; congruence|].
+    left. eapply pendingI_frame; [| |apply (pendingI_other s k n k0 (Active fresh) E Pd)]; reflexivity.
+  - (* EExpire *) destruct (Nat.eq_dec k0 k) as [E|E]; [subst; exfalso; apply NE; right; reflexivity|].
+    destruct (phase s k0); try (left; exact Pd).
+    left. eapply pendingI_frame; [| |apply (pendingI_other s k n k0 Waiting E Pd)]; reflexivity.
+  - (* EStop *) destruct (Nat.eq_dec k0 k) as [E|E]; [subst; exfalso; apply NE; left; reflexivity|].
+    destruct (phase s k0); try (left; exact Pd); left.
+    + apply pendingI_other; assumption.
+    + apply pendingI_other; assumption.
+    + eapply pendingI_frame; [| |apply (pendingI_other s k n k0 Stopped E Pd)]; reflexivity.
+  - (* EWatch *) destruct (phase s k0) eqn:Pk; try (left; exact Pd). left.
+    destruct (Nat.eq_dec k0 k) as [E|E]; [subst|apply pendingI_other; assumption].
+    eapply pendingI_same; [exact Pk| |exact Pd]; simpl; auto.
+  - (* EInitList *) destruct (phase s k0) eqn:Pk; try (left; exact Pd).
+    destruct (se_listed se || negb (se_watch se)) eqn:G; [left; exact Pd|]. left.
+    destruct (Nat.eq_dec k0 k) as [E|E]; [subst|apply pendingI_other; assumption].
+    eapply pendingI_same; [exact Pk| |exact Pd]; simpl.
+    apply orb_false_iff in G. destruct G as [G _].
+    intros [H|[H|[[H _]|[_ H]]]]; auto; congruence.
+  - (* EInitRead *) destruct (phase s k0) eqn:Pk; try (left; exact Pd).
+    destruct (se_init se) as [|m r] eqn:Ini; [left; exact Pd|].
+    destruct (Nat.eq_dec k0 k) as [E|E]; [subst|left; apply pendingI_other; assumption].
+    destruct Pd as [se1 [P1 H]]. rewrite Pk in P1. inversion P1; subst se1. rewrite Ini in H.
+    destruct (memn m (alive s)) eqn:Al.
+    + (* m is alive: if m = n the obligation legitimately disappears *)
+      destruct H as [H|[H|[[H1 [H2|H2]]|H]]].
+      * left. eexists. split; [apply phase_set_same; eapply phase_active_lt; exact Pk|]. simpl. auto.
+      * left. eexists. split; [apply phase_set_same; eapply phase_active_lt; exact Pk|]. simpl. auto.
+      * subst m. right. right. exact Al.
+      * left. eexists. split; [apply phase_set_same; eapply phase_active_lt; exact Pk|]. simpl. auto.
+      * left. eexists. split; [apply phase_set_same; eapply phase_active_lt; exact Pk|]. simpl. auto.
+    + left. eexists. split; [apply phase_set_same; eapply phase_active_lt; exact Pk|]. simpl.
+      destruct H as [H|[H|[[H1 [H2|H2]]|H]]]; auto.
+      * right. left. apply in_or_app. left. exact H.
+      * subst m. right. left. apply in_or_app. right. left. reflexivity.
+  - (* EDeliver *) destruct (phase s k0) eqn:Pk; try (left; exact Pd).
+    destruct (se_queue se) as [|[m a] r] eqn:Qu; [left; exact Pd|]. left.
+    destruct (Nat.eq_dec k0 k) as [E|E]; [subst|apply pendingI_other; assumption].
+    eapply pendingI_same; [exact Pk| |exact Pd]; simpl. rewrite Qu.
+    intros [[H|H]|[H|[H|H]]]; auto.
+    + inversion H; subst. right. left. apply in_or_app. right. left. reflexivity.
+    + right. left. destruct a; [exact H|apply in_or_app; left; exact H].
+  - (* EHandle *) destruct (phase s k0) eqn:Pk; try (left; exact Pd).
+    destruct (nth_error (se_tasks se) j) as [m|] eqn:Nt; [|left; exact Pd].
+    destruct (Nat.eq_dec k0 k) as [E|E].
+    + subst. destruct (Nat.eq_dec m n) as [En|En]; [subst; right; left; reflexivity|]. left.
+      eapply pendingI_frame;
+        [| |apply (pendingI_same s k n se (mkSe (se_watch se) (se_listed se) (se_init se) (se_queue se) (remove_nth j (se_tasks se))) Pk); [|exact Pd]];
+        [reflexivity|reflexivity|simpl].
+      intros [H|[H|H]]; auto. right. left. eapply In_remove_nth; eauto.
+    + left. eapply pendingI_frame; [| |apply (pendingI_other s k n k0 (Active (mkSe (se_watch se) (se_listed se) (se_init se) (se_queue se) (remove_nth j (se_tasks se)))) E Pd)]; reflexivity.
+Qed.
+
+Definition revived (evs : list event) (s : st) (n : node) : Prop :=
+  exists pre post, evs = pre ++ post /\ memn n (alive (run s pre)) = true.
+
+Lemma handled_step : forall s0 s k n e, handledP s0 s k n -> handledP s0 (step s e) k n.
+Proof.
+  intros s0 s k n e [new [ws [T [I C]]]]. destruct (trace_grows s e) as [pre Tg].
+  exists (pre ++ new), ws. split; [rewrite Tg, T, app_assoc; reflexivity|].
+  split; [apply in_or_app; right; exact I|exact C].
+Qed.
+Lemma handled_run : forall evs s0 s k n, handledP s0 s k n -> handledP s0 (run s evs) k n.
+Proof. induction evs as [|e t IH]; intros; simpl; [assumption|]. apply IH. apply handled_step. assumption. Qed.
+
+Record trackI (s0 s : st) (k : nat) (n : node) : Prop := mkTrackI {
+  ti_ext : extends (wls s0) (wls s);
+  ti_pend : pendingI s k n;
+  ti_trace : exists new, trace s = new ++ trace s0
+}.
+
+Lemma trackI_step : forall s0 s k n e, trackI s0 s k n -> ~ ends k e ->
+  trackI s0 (step s e) k n \/ handledP s0 (step s e) k n \/ memn n (alive s) = true.
+Proof.
+  intros s0 s k n e [Ex Pd [new0 Tr]] NE.
+  destruct (pendingI_step s k n e NE Pd) as [Pd'|[H|H]].
+  - left. constructor; [eapply extends_trans; [exact Ex|apply wls_extends]|exact Pd'|].
+    destruct (trace_grows s e) as [pre Tg]. exists (pre ++ new0). rewrite Tg, Tr, app_assoc. reflexivity.
+  - right. left. exists (THandled k n (on_node n (wls s)) :: new0), (on_node n (wls s)).
+    split; [rewrite H, Tr; reflexivity|]. split; [left; reflexivity|apply on_node_extends; exact Ex].
+  - right. right. exact H.
+Qed.
+
+Lemma trackI_run : forall evs s0 s k n, trackI s0 s k n -> Forall (fun e => ~ ends k e) evs ->
+  trackI s0 (run s evs) k n \/ handledP s0 (run s evs) k n \/ revived evs s n.
+Proof.
+  induction evs as [|e t IH]; intros s0 s k n T F; simpl; [left; exact T|].
+  inversion F; subst.
+  destruct (trackI_step s0 s k n e T H1) as [T'|[H|H]].
+  - destruct (IH s0 (step s e) k n T' H2) as [A|[A|[pre [post [E A]]]]]; auto.
+    right. right. exists (e :: pre), post. split; [rewrite E; reflexivity|exact A].
+  - right. left. apply handled_run. exact H.
+  - right. right. exists [], (e :: t). split; [reflexivity|exact H].
+Qed.
+
+Lemma trackI_settle : forall fuel s0 s k n, trackI s0 s k n ->
+  trackI s0 (settle fuel k s) k n \/ handledP s0 (settle fuel k s) k n \/ memn n (alive s) = true.
+Proof.
+  induction fuel as [|f IH]; intros s0 s k n T; simpl; [left; exact T|].
+  destruct (next_event s k) as [e|] eqn:N; [|left; exact T].
+  destruct (trackI_step s0 s k n e T (next_event_not_end s k e N)) as [T'|[H|H]].
+  - destruct (IH s0 (step s e) k n T') as [A|[A|A]]; auto.
+    right. right.
+    destruct T as [_ [se [P _]] _].
+    destruct (settle_step s k se e P N) as [_ [_ [_ [_ [Al _]]]]]. rewrite <- Al. exact A.
+  - right. left. apply handled_settle. exact H.
+  - right. right. exact H.
+Qed.
+
+Lemma none_not_pendingI : forall s k n, next_event s k = None -> ~ pendingI s k n.
+Proof.
+  intros s k n N [se [P H]]. unfold next_event in N. rewrite P in N.
+  destruct (negb (se_watch se)); [discriminate|].
+  destruct (se_listed se) eqn:L; simpl in N; [|discriminate].
+  destruct (se_init se); [|discriminate].
+  destruct (se_queue se); [|discriminate]. destruct (se_tasks se); [|discriminate].
+  destruct H as [H|[H|[[_ H]|[H _]]]]; [destruct H|destruct H|destruct H|discriminate].
+Qed.
+
+(* C28, all interleavings, second half: watcher k takes the lock while node n
+   has no status; then ANY events follow as long as k's session is not ended;
+   when k has finished its own steps, either a handler for n has run and
+   covered every workload recorded on n when k took the lock, or n's status
+   came back at some point in between (the node is alive again). *)
+Theorem activation_interleaved : forall evs1 evs2 k n,
+  let s0 := run init evs1 in
+  phase s0 k = Waiting -> holder s0 = None -> memn n (nodes s0) = true ->
+  Forall (fun e => ~ ends k e) evs2 ->
+  let s1 := step s0 (ERegister k) in
+  let s2 := run s1 evs2 in
+  let s3 := settle (settle_bound s2 k) k s2 in
+  handledP s0 s3 k n \/ revived evs2 s1 n.
+Proof.
+  intros evs1 evs2 k n s0 P H Nn F s1 s2 s3.
+  assert (L : k < length (ws s0)).
+  { unfold phase in P. destruct (Nat.lt_ge_cases k (length (ws s0))); [assumption|].
+    rewrite nth_overflow in P by assumption. discriminate. }
+  assert (T1 : trackI s0 s1 k n).
+  { constructor.
+    - apply wls_extends.
+    - exists fresh. split.
+      + unfold s1. simpl. rewrite P, H. unfold phase. simpl. rewrite nth_upd_same by exact L. reflexivity.
+      + right. right. right. split; [reflexivity|]. unfold s1. simpl. rewrite P, H. simpl. apply memn_In. exact Nn.
+    - exists []. unfold s1. simpl. rewrite P, H. reflexivity. }
+  destruct (trackI_run evs2 s0 s1 k n T1 F) as [T2|[Hd|R]].
+  - fold s2 in T2. destruct (trackI_settle (settle_bound s2 k) s0 s2 k n T2) as [T3|[Hd|A]].
+    + exfalso. fold s3 in T3. destruct T2 as [_ [se2 [P2 _]] _].
+      eapply none_not_pendingI; [|exact (ti_pend _ _ _ _ T3)].
+      apply (settle_terminates _ _ _ se2 P2). apply msr_bound. exact P2.
+    + left. exact Hd.
+    + right. exists evs2, []. split; [rewrite app_nil_r; reflexivity|exact A].
+  - left. apply handled_settle. exact Hd.
+  - right. exact R.
+Qed.
